@@ -4093,7 +4093,23 @@ fn eval_built_in_call(
                 }
             };
 
-            let v = check_snippet(snippet, PathBuf::from(path_s), env);
+            // The path only labels the snippet, but the VFS requires
+            // an absolute path or a built-in file name.
+            let snippet_path = PathBuf::from(path_s);
+            if !(snippet_path.is_absolute() || snippet_path.display().to_string().starts_with("__")) {
+                return Err((
+                    RestoreValues(saved_values),
+                    EvalError::Exception(ExceptionInfo {
+                        position: arg_positions[1].clone(),
+                        message: ErrorMessage(vec![Text(format!(
+                            "Expected an absolute path, but got `{}`.",
+                            snippet_path.display()
+                        ))]),
+                    }),
+                ));
+            }
+
+            let v = check_snippet(snippet, snippet_path, env);
             if expr_value_is_used {
                 env.push_value(v);
             }
